@@ -268,6 +268,19 @@ PROPS["C13"] = {
     "assumptions": [],
 }
 
+PROPS["C11"] = {
+    "level": "exploration",
+    "level_text": "held on N histories: each random history (HTTP requests with 0-6 headers incl. multi-valued ones through both APIs, key-value, time, render, platform, batches; responses in random order) was replayed 8 times in one process and in 4 separate processes (fresh hash seeds and addresses); every serialized effect batch and every view was byte-identical across replays once fresh timer ids are renumbered by first appearance; random command programs replayed on core and bridge hosts gave identical ordered observations; Response equality agreed with content equality (equal content built in different header orders => ==; one header / value / status / body changed => !=), is symmetric and reflexive; TimerHandle / CompletedTimerHandle equality follows the timer identity.",
+    "level_note": "wall-clock and thread timing cannot influence a single-threaded replay through the public API (the core never reads a clock); they are covered indirectly by C08's commuting-operation oracle",
+    "technique": "replay twins in-process and cross-process with byte comparison + equality-law table",
+    "rule": "history seed -> replays; non-trivial = history with >= 6 compared outputs whose replays all agreed, or an equality pair whose verdict matched content equality in both directions; distinct = history seed / hash of the content pair",
+    "lanes": [caplab("detlab", 4, 16)],
+    "floors": {"quick": {"evaluations": 20000, "distinct_nontrivial": 15000, "histories_replayed": 400, "child_process_replays": 300, "response_equalities_checked": 20000, "program_replays": 4000},
+               "thorough": {"evaluations": 2000000, "distinct_nontrivial": 390000}},
+    "must_cover": {"equality_cases": ["equal-content", "different-content"]},
+    "assumptions": [],
+}
+
 ENGINES = [
     {"name": "cmdlab", "path": "harness/cmdlab", "serves_properties": ["C01", "C02", "C03", "C04", "C05", "C06", "C07", "C09"],
      "kind_free_text": "random program generator + executable reference model of command semantics + hosts (direct, stream-polled, nested, Core, legacy, bincode/JSON bridge) run in lock-step on the real crux code"},
@@ -279,5 +292,5 @@ ENGINES = [
 
 NOT_APPLICABLE = [
     {"property_id": p, "reason": "check not built yet in this session (see DESIGN.md); to be claimed once its engine exists"}
-    for p in ["C11", "C20"]
+    for p in ["C20"]
 ]
